@@ -11,18 +11,26 @@ import Driver.OpsFs
 import Driver.OpsArgs
 import Driver.OpsHeader
 import Driver.OpsFsPath
+import Driver.OpsFsCache
 import Driver.OpsConn
 import Driver.OpsDateIP
 import Driver.OpsLB
 import Driver.OpsPipe
 import Driver.OpsCookie
+import Driver.OpsDialer
+import Driver.OpsWorkerPool
+import Driver.OpsRetry
+import Driver.OpsURI
 import Driver.OpsHeaderSet
 import Driver.OpsAdaptor
+import Driver.OpsRedirect
+import Driver.OpsPrefork
+import Driver.OpsStreamC34
 
 open Fh Fh.Driver
 
 def handlers : List (String → List Bytes → Option String) :=
-  [opsByteClass, opsIntCodec, opsPath, opsFs, opsArgs, opsHeader, opsConn, opsDateIP, opsFsPath, opsLB, opsPipe, opsCookie, opsHeaderSet, opsAdaptor]
+  [opsByteClass, opsIntCodec, opsPath, opsFs, opsArgs, opsHeader, opsConn, opsDateIP, opsFsPath, opsLB, opsPipe, opsCookie, opsDialer, opsWorkerPool, opsFsCache, opsRetry, opsURI, opsHeaderSet, opsAdaptor, opsRedirect, opsPrefork, opsStreamC34]
 
 def dispatch (line : String) : String :=
   match (line.splitOn " ").filter (· ≠ "") with
